@@ -102,6 +102,13 @@ pub enum Op {
     NetCut,
     /// ... and restored.
     NetRestore,
+    /// The trust anchor signer becomes unavailable (as when it is kept
+    /// off-line): requests of the trust anchor's children pile up at the
+    /// proxy and the children keep asking ...
+    SignerOffline,
+    /// ... until a signing session takes place (and the signer stays
+    /// available from then on).
+    SignerSession,
     /// Explicit RRDP session reset.
     RrdpSessionReset { inst: usize },
     /// The publication server operator removes the CA's publisher.
@@ -133,6 +140,7 @@ impl Op {
             | Op::Restart { inst } | Op::RrdpSessionReset { inst }
             | Op::RemovePublisher { inst, .. } | Op::RestartRrdp { inst, .. }
             | Op::Partition { inst } => vec![*inst],
+            Op::SignerOffline | Op::SignerSession => vec![0],
             Op::Heal { .. } | Op::Advance { .. } | Op::Pump
             | Op::NetCut | Op::NetRestore => vec![],
         }
@@ -165,6 +173,8 @@ impl Op {
             Op::Heal { .. } => "heal",
             Op::NetCut => "net_cut",
             Op::NetRestore => "net_restore",
+            Op::SignerOffline => "signer_offline",
+            Op::SignerSession => "signer_session",
             Op::RrdpSessionReset { .. } => "rrdp_session_reset",
             Op::RemovePublisher { .. } => "remove_publisher",
             Op::RestartRrdp { .. } => "restart_rrdp",
@@ -207,6 +217,9 @@ pub struct GenCfg {
     pub w_class_map: u64,
     /// Weight of taking the second instance down and up again.
     pub w_partition: u64,
+    /// Weight of the trust anchor signer going off-line / a signing
+    /// session taking place.
+    pub w_signer: u64,
     pub pump_pct: u64,
 }
 
@@ -234,6 +247,7 @@ impl Default for GenCfg {
             w_status: 0,
             w_class_map: 0,
             w_partition: 0,
+            w_signer: 0,
             pump_pct: 55,
         }
     }
@@ -371,6 +385,8 @@ pub struct GenCtx<'a> {
     pub down: &'a [usize],
     /// The link between the instances is cut.
     pub cut: bool,
+    /// The trust anchor signer is off-line.
+    pub signer_offline: bool,
 }
 
 pub fn generate(rng: &mut Rng, ctx: &GenCtx) -> Op {
@@ -387,8 +403,18 @@ pub fn generate(rng: &mut Rng, ctx: &GenCtx) -> Op {
 
     let total = cfg.w_entitlement + cfg.w_config + cfg.w_removal
         + cfg.w_keyroll + cfg.w_maintenance + cfg.w_clock + cfg.w_rrdp
-        + cfg.w_status + cfg.w_partition + 10;
+        + cfg.w_status + cfg.w_partition + cfg.w_signer + 10;
     let mut pick = rng.below(total);
+
+    if pick < cfg.w_signer {
+        return if ctx.signer_offline { Op::SignerSession }
+        else { Op::SignerOffline }
+    }
+    pick -= cfg.w_signer;
+    // Do not keep the signer away for too long.
+    if cfg.w_signer > 0 && ctx.signer_offline && rng.chance(1, 8) {
+        return Op::SignerSession
+    }
 
     if pick < cfg.w_partition {
         return if ctx.cut {
@@ -602,7 +628,19 @@ pub fn generate(rng: &mut Rng, ctx: &GenCtx) -> Op {
         if !cfg.allow_keyroll {
             return Op::Pump
         }
-        let ca = *rng.pick(&user_cas);
+        let mut ca = *rng.pick(&user_cas);
+        if cfg.w_signer > 0 && rng.chance(1, 2) {
+            // Rolls directly under the trust anchor, whose answers wait for
+            // the signer.
+            let under_ta: Vec<&crate::model::MCa> = cas.iter().copied()
+                .filter(|c| {
+                    c.inst == 0
+                        && c.parents.values().any(|p| p.parent_ca == "ta")
+                }).collect();
+            if let Some(pick) = rng.pick_opt(&under_ta) {
+                ca = *pick;
+            }
+        }
         return if rng.chance(1, 2) {
             Op::KeyRollInit { inst: ca.inst, ca: ca.name.clone() }
         } else {
